@@ -583,6 +583,10 @@ func (r *Reader) refsForLinear(oid []byte) (*Iterator, error) {
 	if err != nil {
 		return nil, err
 	}
+	if it == nil {
+		// no refs in this table.
+		return &Iterator{&emptyIterator{}}, nil
+	}
 	return &Iterator{&filteringRefIterator{
 		tab:         r,
 		oid:         oid,
